@@ -169,6 +169,7 @@ def gen_cli_case(rng):
     req["type"] = "no_test" if cmd == "build" else "test"
     req["op"] = "graph.select"
     req["cur"] = req["cur"] if req["cur"] in {n["pkg"] for n in nodes} else ""
+    req["exclude"] = [t for t in req["exclude"] if t not in req["tags"]]     # the CLI rejects a tag that is both selected and excluded
     return req, cmd
 
 
